@@ -202,6 +202,7 @@ class Pump:
         self.order = []  # log of granted keys
         self.default_settle = default_settle
         self.max_parked = 0
+        self.tail = "first"  # who gets the turn once the choices are used up: first|last|rr
 
     def next_choice(self):
         if self.pos < len(self.choices):
@@ -272,7 +273,11 @@ class Pump:
             if not keys:
                 continue
             self.max_parked = max(self.max_parked, len(keys))
-            key = keys[(c // 16) % len(keys)]
+            if self.pos > len(self.choices) and self.tail != "first":
+                # generated choices are used up: fallback policy of this schedule
+                key = keys[-1] if self.tail == "last" else keys[self.decisions % len(keys)]
+            else:
+                key = keys[(c // 16) % len(keys)]
             self.decisions += 1
             self.order.append(key)
             fut = self.parked.pop(key)
